@@ -385,7 +385,20 @@ def counted_set_shrinks(F, R):
          'ids stay in the set compared with Receive Maximum after their acknowledgement was produced: %s' % '; '.join(i['key'] for i in bad)[:400])
 
 
+def enforced_is_announced(F, R):
+    """The Receive Maximum the v5 server enforces is the one it announced in CONNACK, stored unconditionally
+    (imports the C19.limits obligations about the receive maximum)."""
+    import c19, runner
+    rep = runner.Report('C19', 'quick')
+    c19.limits(F, rep)
+    mine = [i for i in rep.items if 'receive maximum' in i['key'].lower() or 'receive_max' in i['key']]
+    bad = [i for i in mine if not i['ok']]
+    R.ob('C12.recvmax', 'v5-server|enforced-receive-maximum==announced (C19.limits, %d instances)' % len(mine), bool(mine) and not bad,
+         'the limit compared with the in-flight set is not (always) the value announced in CONNACK: %s' % '; '.join(i['key'] for i in bad)[:300])
+
+
 def run(F, R):
+    enforced_is_announced(F, R)
     counted_set_shrinks(F, R)
     counter(F, R)
     gate(F, R)
